@@ -52,7 +52,7 @@ impl Prop for C03 {
   fn legs(&self, _tier: Tier) -> Vec<Leg<TreeCase>> {
     vec![Leg {
       name: "ascii trees",
-      source: Source::Generated(
+      source: Cases::Generated(
         Box::new(|| tree(GenCfg::positional()).prop_map(|spec| TreeCase { spec }).boxed()),
         150_000,
         4_000_000,
